@@ -1091,6 +1091,18 @@ def next (s : PState) : Step → PState
                successes := s.successes ++ [{ client := i, expected := p.expected, version := v
                                               content := p.new, base := p.base, diskBefore := s.disk }] }
 
+/-- content of the last successful write, `d0` if there was none -/
+def lastContent (d0 : Content) (l : List Success) : Content :=
+  match l.getLast? with
+  | some ev => ev.content
+  | none => d0
+
+/-- every success found on disk exactly the content of the previous success (or the initial one),
+or no file at all (it had been removed by `delete_entry`) -/
+def chainOk : Content → List Success → Prop
+  | _, [] => True
+  | d, ev :: rest => (ev.diskBefore = some d ∨ ev.diskBefore = none) ∧ chainOk ev.content rest
+
 def run (s : PState) : List Step → PState
   | [] => s
   | st :: rest => run (next s st) rest
